@@ -55,6 +55,18 @@ def run(tier):
             meta[jid] = {"cnt": cnt, "hist": hist, "vec": v,
                          "facts": {"kind": v["kind"], "plan": json.dumps(v["plan"], sort_keys=True)}}
         run.sample({"fn": fn, "vector": uniq[len(uniq) // 3]})
+    # coupled plans: one item at the pass-count threshold whose histogram is accepted only as long as the Q value of its
+    # failing sample is counted where it lies (bin b > 0) -- every sample's Q enters the histogram, passed or not
+    from checks.c08 import edge_plans
+    for fn in ("PeriodDetect", "PowerOnDetect", "FactoryDetect"):
+        s, sb, items, fast = wf.KINDS[fn]
+        for rep in range((12 if thorough else 4) if fn != "FactoryDetect" else (4 if thorough else 1)):
+            jid += 1
+            ip = edge_plans(s, items, rng, coupled=True)
+            jobs.append(wf.mkjob(jid, fn, ip, plan_seed=rng.randrange(1 << 30), rseed=jid, tag="coupled"))
+            meta[jid] = {"cnt": [ip[i]["pass"] for i in range(items)], "hist": [ip[i]["hist"] for i in range(items)],
+                         "vec": {"verdict": True, "kind": "coupled", "plan": [{"item": i + 1, "pass": ip[i]["pass"], "hist": ip[i]["hist"]} for i in range(items) if ip[i]["pass"] < s]},
+                         "facts": {"kind": "coupled", "plan": json.dumps([x for x in ip[:items] if x.get("failbin")], sort_keys=True)}}
     rows, rej = wf.run_and_validate(run, hz, jobs, meta)
     # orchestrator-side cross-check against the verdict GenVerdict printed (same Decision operators, evaluated at generation time)
     nt = 0
